@@ -58,6 +58,12 @@ func TestC08Conn(t *testing.T) {
 		}
 		waves := rapid.IntRange(1, 3).Draw(t, "waves")
 		tick := rapid.SampledFrom([]time.Duration{0, time.Nanosecond, time.Millisecond, time.Second}).Draw(t, "tick")
+		// The server may announce a session more than once, with the same or another
+		// unique_id (it lost its state): numbering must go on (seeded change C08d).
+		announce := make([]int, waves)
+		for w := range announce {
+			announce[w] = rapid.SampledFrom([]int{0, 0, 1, 2}).Draw(t, "announce")
+		}
 		rapid.SyncTest(t, func(t *rapid.T) {
 			key := drawKey(rnd)
 			f := startConn(t, key, rnd, mtproto.Options{PingInterval: 24 * time.Hour, PingTimeout: time.Hour,
@@ -80,6 +86,10 @@ func TestC08Conn(t *testing.T) {
 					}()
 				}
 				synctest.Wait()
+				if announce[w] != 0 {
+					_ = f.peer.Send(f.peer.NextID(3), 1, pbt.NewSessionCreated(0, int64(100+announce[w]), 0x5a17))
+					synctest.Wait()
+				}
 				time.Sleep(tick)
 			}
 			synctest.Wait()
